@@ -50,6 +50,11 @@ fn lint_by_ref_arg(
             match &arg_pos.element {
                 Expression::ArrayElement(name, args, expression_type) => {
                     if args.is_empty() {
+                        if matches!(expression_type, ExpressionType::FixedLengthString(_)) {
+                            // an array of fixed-length strings cannot stand in for an array of strings
+                            // (only a single fixed-length string is copied in and out)
+                            return Err(LintError::ArgumentTypeMismatch.at(arg_pos));
+                        }
                         let dummy_expr =
                             Expression::Variable(name.clone(), expression_type.clone()).at(arg_pos);
                         lint_by_ref_arg(&dummy_expr, boxed_element_type.as_ref())
